@@ -556,15 +556,28 @@ def drive_suspended(fn, r, beh, carrier, checker, observe=True, mask=None, reps=
                 c = stackscope.extract(job)
             if b != c or [f.pyframe for f in a.frames] != [f.pyframe for f in b.frames]:
                 checker.bad("extractions of the unstarted target differ")
-        if carrier == "agen":
+        if carrier in ("agen", "ageny"):
             aw = obj.asend(None)
         while True:
             try:
-                if carrier == "agen":
+                if carrier in ("agen", "ageny"):
                     v = aw.send(None)
                 else:
                     v = obj.send(None)
             except StopIteration as ex:
+                if carrier == "ageny":
+                    # the async generator suspended at its own yield: the asend() awaitable is finished
+                    v = ex.value
+                    transcript.append(("yield", v))
+                    ev = env.expect("susp", None)
+                    if observe and (mask is None or (sends < len(mask) and mask[sends])):
+                        stacks = [checker.check_suspended(env, ev, obj, carrier) for _ in range(reps)]
+                        if reps > 1 and stacks[0] is not None and any(s_ != stacks[0] for s_ in stacks[1:]):
+                            checker.bad("two extractions of an unchanged target differ")
+                        del stacks
+                    sends += 1
+                    aw = obj.asend(None)
+                    continue
                 transcript.append(("return", "value" if ex.value is not None else None))
                 outcome = "return"
                 break
@@ -598,7 +611,7 @@ def drive_suspended(fn, r, beh, carrier, checker, observe=True, mask=None, reps=
             raise GroundTruthMismatch("outcome: spec %s real %s" % (spec_out, outcome))
     finally:
         try:
-            if carrier == "agen":
+            if carrier in ("agen", "ageny"):
                 pass
             else:
                 obj.close()
@@ -633,7 +646,7 @@ def drive_running(fn, r, beh, carrier, checker):
 def carriers_for(prog, mode):
     if mode == "running":
         return ["coro", "agen"] if prog["async"] else ["func", "gen", "coro", "agen"]
-    return ["coro", "agen"] if prog["async"] else ["gen", "coro", "agen"]
+    return ["coro", "agen", "ageny"] if prog["async"] else ["gen", "coro", "agen", "ageny"]
 
 
 def main():
